@@ -256,6 +256,29 @@ def rename_beside_together_history():
     return specs, evos
 
 
+def together_readded_history():
+    """an index_together / unique_together entry is dropped by one version and comes back in a later one: a database
+    upgraded across both in one run ends with the index, like every other path"""
+    def fld(name, t, related=None, **attrs):
+        return {'name': name, 'type': t, 'attrs': attrs, 'related': related}
+
+    def book(it, ut):
+        return {'apps': [{'id': 'vapp', 'models': [
+            {'name': 'Book', 'table': 'vapp_book', 'unique_together': ut, 'index_together': it, 'indexes': [],
+             'constraints': [], 'fields': [fld('id', 'AutoField', primary_key=True),
+                                           fld('title', 'CharField', max_length=20, null=True),
+                                           fld('year', 'IntegerField', null=True),
+                                           fld('pages', 'IntegerField', null=True)]}]}]}
+    ty, tp = ['title', 'year'], ['title', 'pages']
+    specs = [book([], []), book([ty], [ty]), book([tp], [tp]), book([tp, ty], [tp]), book([tp, ty], [tp, ty])]
+    cm = lambda prop, val: {'t': 'ChangeMeta', 'model': 'Book', 'prop': prop, 'py_value': [tuple(x) for x in val]}
+    evos = [[cm('index_together', [ty]), cm('unique_together', [ty])],
+            [cm('index_together', [tp]), cm('unique_together', [tp])],
+            [cm('index_together', [tp, ty])],
+            [cm('unique_together', [tp, ty])]]
+    return specs, evos
+
+
 def new_model_history():
     """a model that first appears in a later version (with a foreign key and an indexed column: its indexes are
     deferred SQL of the model creation), next to ordinary evolutions of an older model"""
@@ -349,7 +372,7 @@ def muts_of(e):
     return [m for _, _, ms in parts(0, e) for m in ms]
 
 
-SCRIPTED = [rename_beside_together_history, scripted_history, two_app_history, signature_only_history, new_model_history, readd_history, rename_model_history, reuse_after_rename_history, twice_changed_history,
+SCRIPTED = [rename_beside_together_history, together_readded_history, scripted_history, two_app_history, signature_only_history, new_model_history, readd_history, rename_model_history, reuse_after_rename_history, twice_changed_history,
             together_with_relation_history]
 
 
